@@ -92,7 +92,7 @@ def _work(units):
                     for b in V:
                         calls += [((n, a, b), {}), ((n, a), {"confidence": b}), ((n,), {"p": a, "confidence": b}), ((n,), {"confidence": b, "p": a}),
                                   ((), {"confidence": b, "p": a, "n": n}), ((n, a, b, "wald"), {}), ((n, a, b), {"method": "wald"}), ((n,), {"method": "wald", "confidence": b, "p": a}),
-                                  ((n, a, b, "Wald"), {}), ((n, a, b, "AGRESTI-COULL"), {})]  # fmt: skip
+                                  ((n, a, b, "agresti-coull"), {}), ((n, a), {"method": "agresti-coull", "confidence": b})]  # fmt: skip
             for a in V:
                 calls += [((), {"p": a}), ((), {"confidence": a}), ((), {"method": "wald", "p": a}), ((), {"method": "wald", "confidence": a})]
             calls += [((), {}), ((10,), {}), ((), {"method": "wald"}), ((), {"method": "agresti-coull"})]
@@ -109,7 +109,7 @@ def _work(units):
                     except Exception as e:  # noqa
                         viol.append({"kind": "ci:spelling", "case": case, "observed": f"{type(e).__name__}: {e}", "why": "a well-formed call raised"})
                         continue
-                    tlo, thi = textbook(n, pp, conf, method.lower(), C * abs(math.log(((1 - conf) / 2) / (1 - (1 - conf) / 2))))
+                    tlo, thi = textbook(n, pp, conf, method, C * abs(math.log(((1 - conf) / 2) / (1 - (1 - conf) / 2))))
                     outs.add((lo, hi))
                     if not (close(lo, tlo) and close(hi, thi)):
                         viol.append({"kind": "ci:spelling", "case": case, "observed": repr((lo, hi)),
